@@ -6,6 +6,11 @@ from checks import common
 PID = "C15"
 
 
+# empty containers by (outer) Rust type. Only types for which "empty" and "absent" are different typed values: for Vec / HashMap
+# fields an absent entry IS the empty container (an omitted default in the sense of the property), so dropping `/Font << >>` is no loss
+EMPTY = {"Dictionary": "<< >>", "PdfString": "()"}
+
+
 def inner(ty, prefix):
     t = ty.replace(" ", "")
     return t[len(prefix):-1] if t.startswith(prefix) else None
@@ -17,7 +22,7 @@ def concrete_cases(tlc_cases):
     for c in tlc_cases:
         j = json.loads(c)
         if j["readable"]:
-            pats[(j["o"], j["dd"], j["v"], j["u"], j["tag"])] = j
+            pats[(j["o"], j["dd"], j["v"], j["u"], j["tag"], j["r"])] = j
     ms = models.extract()
     by = {m["name"]: m for m in ms}
     out = []
@@ -28,7 +33,7 @@ def concrete_cases(tlc_cases):
         has_other = any(f["other"] for f in m["fields"])
         tag = m.get("type_tag")
         seen = set()
-        for (o, dd, v, u, tg) in sorted(pats):
+        for (o, dd, v, u, tg, rr) in sorted(pats):
             if tg == "-" and not (tag and tag.endswith("?")):
                 continue          # the tag may only be absent where it is optional
             if tg == "-" and not tag:
@@ -48,6 +53,8 @@ def concrete_cases(tlc_cases):
                         val = models.value_for(t, by)
                     elif dd == "dflt" and re.fullmatch(r"-?\d+\.?\d*|true|false", f["default"].strip()):
                         val = f["default"].strip()
+                elif t.startswith("Option<") and o == "oe":
+                    val = EMPTY.get(re.sub(r"<.*", "", t[7:-1]))              # an empty container is a value, not an absent entry
                 elif t.startswith("Option<"):
                     if o == "o":
                         it = t[7:-1]
@@ -59,6 +66,8 @@ def concrete_cases(tlc_cases):
                     e = models.value_for(t[4:-1], by)
                     if isinstance(e, str) and v != "-":
                         val = {"single": e, "arr1": "[%s]" % e, "arr2": "[%s %s]" % (e, e)}[v]
+                elif rr == "re" and re.sub(r"<.*", "", t) in EMPTY:
+                    val = EMPTY[re.sub(r"<.*", "", t)]
                 else:
                     val = models.value_for(t, by)
                 if isinstance(val, str):
@@ -71,14 +80,14 @@ def concrete_cases(tlc_cases):
             if d in seen:
                 continue
             seen.add(d)
-            pattern = "minimal" if (o, dd, v, u) == ("-", "-", "-", "-") and tg != "-" else "o=%s,d=%s,v=%s,u=%s,tag=%s" % (o, dd, v, u, tg)
+            pattern = "minimal" if (o, dd, v, u, rr) == ("-", "-", "-", "-", "r") and tg != "-" else "o=%s,d=%s,v=%s,u=%s,tag=%s,r=%s" % (o, dd, v, u, tg, rr)
             out.append(json.dumps({"model": m["name"], "dict": d, "aux": {str(k): x for k, x in models.AUX.items()}, "has_other": has_other, "pattern": pattern}))
     return out
 
 
 def run(tier, seed):
     return common.run_enum(PID, tier, seed, "MC_Derive", "derive", ["Derive_1.cfg", "Derive_2.cfg", "Derive_3.cfg", "Derive_4.cfg"],
-        [("Derive_w_writer_drops_other.cfg", "writer_drops_other")], actions=["Step"],
+        [("Derive_w_writer_drops_other.cfg", "writer_drops_other"), ("Derive_w_empty_written_as_null.cfg", "empty_written_as_null")], actions=["Step"],
         rule="the spec's presence patterns (optional present/absent, default absent/explicit default/other value, one-or-many single/array of 1/array of 2, unknown extra "
              "entries, optional type tag present/absent) mapped onto every typed model with a derived reader found in the sources; each generated dictionary d is read, "
              "written (w1), read again and written again (w2) through the model's real reader/writer with a recording Updater; required: w2 == w1 (references to objects "
